@@ -205,12 +205,16 @@ func init() {
 		if nextFd == nil || sbFd == nil || getFd == nil {
 			problem("fiterator.Next/SetBackward/Get not found")
 		}
-		l.p("/-- fiterator.Next contains `fit.valid = false` -/")
-		l.p("def fiterNextResetsValid : Bool := %s", leanBool(assignsValidFalse(nextFd)))
-		l.p("/-- fiterator.SetBackward contains `fit.valid = false` -/")
-		l.p("def fiterSetBackwardResetsValid : Bool := %s", leanBool(assignsValidFalse(sbFd)))
-		l.p("/-- fiterator.Get computes `fit.valid = fit.fltF(&fit.le) && fit.fitInRange()` -/")
-		l.p("def fiterValidIsFltAndRange : Bool := %s", leanBool(validIsFltAndRange(getFd)))
+		l.p("/-- fiterator.Next sets `valid = false` (directly or in a same-file helper it calls, depth <= 2) -/")
+		l.p("def fiterNextResetsValid : Bool := %s", leanBool(c05AssignsValid(ff, nextFd, "false")))
+		l.p("/-- fiterator.SetBackward sets `valid = false` -/")
+		l.p("def fiterSetBackwardResetsValid : Bool := %s", leanBool(c05AssignsValid(ff, sbFd, "false")))
+		l.p("/-- in fiterator.Get the conjunction `fltF(…) && <range check>` (in this order) decides `valid`: assigned to it, or the")
+		l.p("condition of the `if` that sets it (any loop form, hoisted locals resolved) -/")
+		okConj, rangeFd := validIsFltAndRange(ff, getFd)
+		l.p("def fiterValidIsFltAndRange : Bool := %s", leanBool(okConj))
+		l.p("/-- the range check, normalised (conversions and hoisted locals removed, timestamp on the left, lower bound first) -/")
+		l.p("def fiterRangeCheck : String := %s", leanStr(rangeCheckDesc(ff, rangeFd, getFd)))
 		l.write()
 	}
 }
@@ -389,48 +393,241 @@ func isFitValid(e ast.Expr) bool {
 	return ok && se.Sel.Name == "valid"
 }
 
-func assignsValidFalse(fd *ast.FuncDecl) bool {
-	if fd == nil {
-		return false
+// c05SameFileCallee resolves a call to a function or method declared in the same file (by name).
+func c05SameFileCallee(f *ast.File, ce *ast.CallExpr) *ast.FuncDecl {
+	name := ""
+	switch fn := ce.Fun.(type) {
+	case *ast.Ident:
+		name = fn.Name
+	case *ast.SelectorExpr:
+		name = fn.Sel.Name
 	}
-	found := false
+	if name == "" || f == nil {
+		return nil
+	}
+	for _, d := range f.Decls {
+		if fd, ok := d.(*ast.FuncDecl); ok && fd.Name.Name == name && fd.Body != nil {
+			return fd
+		}
+	}
+	return nil
+}
+
+// c05InspectDeep visits the body of fd and the bodies of the same-file functions it calls (depth <= 2).
+func c05InspectDeep(f *ast.File, fd *ast.FuncDecl, depth int, seen map[*ast.FuncDecl]bool, visit func(ast.Node)) {
+	if fd == nil || fd.Body == nil || seen[fd] {
+		return
+	}
+	seen[fd] = true
 	ast.Inspect(fd.Body, func(n ast.Node) bool {
-		if as, ok := n.(*ast.AssignStmt); ok && len(as.Lhs) == 1 && len(as.Rhs) == 1 && isFitValid(as.Lhs[0]) {
-			if id, ok := as.Rhs[0].(*ast.Ident); ok && id.Name == "false" {
-				found = true
+		if n == nil {
+			return false
+		}
+		visit(n)
+		if ce, ok := n.(*ast.CallExpr); ok && depth > 0 {
+			if callee := c05SameFileCallee(f, ce); callee != nil {
+				c05InspectDeep(f, callee, depth-1, seen, visit)
 			}
 		}
 		return true
+	})
+}
+
+func c05IsBoolIdent(e ast.Expr, v string) bool {
+	id, ok := e.(*ast.Ident)
+	return ok && id.Name == v
+}
+
+// c05AssignsValid: `<x>.valid = <v>` somewhere in fd or a same-file helper it calls
+func c05AssignsValid(f *ast.File, fd *ast.FuncDecl, v string) bool {
+	found := false
+	c05InspectDeep(f, fd, 2, map[*ast.FuncDecl]bool{}, func(n ast.Node) {
+		if as, ok := n.(*ast.AssignStmt); ok && len(as.Lhs) == 1 && len(as.Rhs) == 1 && isFitValid(as.Lhs[0]) && c05IsBoolIdent(as.Rhs[0], v) {
+			found = true
+		}
 	})
 	return found
 }
 
-func validIsFltAndRange(fd *ast.FuncDecl) bool {
-	if fd == nil {
-		return false
+// c05LocalDefs: single-assignment locals of a function (`x := e`), used to look through hoisted values
+func c05LocalDefs(fd *ast.FuncDecl) map[string]ast.Expr {
+	defs := map[string]ast.Expr{}
+	count := map[string]int{}
+	if fd == nil || fd.Body == nil {
+		return defs
 	}
-	found := false
 	ast.Inspect(fd.Body, func(n ast.Node) bool {
-		as, ok := n.(*ast.AssignStmt)
-		if !ok || len(as.Lhs) != 1 || len(as.Rhs) != 1 || !isFitValid(as.Lhs[0]) {
-			return true
-		}
-		be, ok := as.Rhs[0].(*ast.BinaryExpr)
-		if !ok || be.Op != token.LAND {
-			return true
-		}
-		name := func(e ast.Expr) string {
-			if ce, ok := e.(*ast.CallExpr); ok {
-				if se, ok := ce.Fun.(*ast.SelectorExpr); ok {
-					return se.Sel.Name
+		if as, ok := n.(*ast.AssignStmt); ok && len(as.Lhs) == len(as.Rhs) {
+			for i, l := range as.Lhs {
+				if id, ok := l.(*ast.Ident); ok && id.Name != "_" {
+					count[id.Name]++
+					defs[id.Name] = as.Rhs[i]
 				}
 			}
-			return ""
-		}
-		if name(be.X) == "fltF" && name(be.Y) == "fitInRange" {
-			found = true
 		}
 		return true
 	})
-	return found
+	for n, c := range count {
+		if c != 1 {
+			delete(defs, n)
+		}
+	}
+	return defs
+}
+
+// strip removes parentheses, no-op numeric conversions (`int64(x)`) and looks through single-assignment locals
+func c05Strip(e ast.Expr, defs map[string]ast.Expr) ast.Expr {
+	for i := 0; i < 8; i++ {
+		switch x := e.(type) {
+		case *ast.ParenExpr:
+			e = x.X
+			continue
+		case *ast.CallExpr:
+			if id, ok := x.Fun.(*ast.Ident); ok && len(x.Args) == 1 {
+				switch id.Name {
+				case "int64", "uint64", "int":
+					e = x.Args[0]
+					continue
+				}
+			}
+		case *ast.Ident:
+			if d, ok := defs[x.Name]; ok {
+				e = d
+				continue
+			}
+		}
+		break
+	}
+	return e
+}
+
+func c05CalleeName(e ast.Expr) string {
+	if ce, ok := e.(*ast.CallExpr); ok {
+		switch fn := ce.Fun.(type) {
+		case *ast.SelectorExpr:
+			return fn.Sel.Name
+		case *ast.Ident:
+			return fn.Name
+		}
+	}
+	return ""
+}
+
+// validIsFltAndRange: in Get (any loop form) the conjunction `fltF(…) && R(…)`, R a same-file function, decides `valid`:
+// it is assigned to valid, or it is the condition of an `if` under which valid is set to true (or, negated, the condition
+// of an `if` while valid = true is set elsewhere in the function). Returns also R's declaration.
+func validIsFltAndRange(f *ast.File, fd *ast.FuncDecl) (bool, *ast.FuncDecl) {
+	if fd == nil {
+		return false, nil
+	}
+	defs := c05LocalDefs(fd)
+	var rangeFd *ast.FuncDecl
+	isConj := func(e ast.Expr) bool {
+		be, ok := c05Strip(e, defs).(*ast.BinaryExpr)
+		if !ok || be.Op != token.LAND {
+			return false
+		}
+		x, y := c05Strip(be.X, defs), c05Strip(be.Y, defs)
+		if c05CalleeName(x) != "fltF" {
+			return false
+		}
+		ce, ok := y.(*ast.CallExpr)
+		if !ok {
+			return false
+		}
+		if callee := c05SameFileCallee(f, ce); callee != nil {
+			rangeFd = callee
+			return true
+		}
+		return false
+	}
+	setsTrue := func(n ast.Node) bool {
+		found := false
+		ast.Inspect(n, func(m ast.Node) bool {
+			if as, ok := m.(*ast.AssignStmt); ok && len(as.Lhs) == 1 && len(as.Rhs) == 1 && isFitValid(as.Lhs[0]) && c05IsBoolIdent(as.Rhs[0], "true") {
+				found = true
+			}
+			return true
+		})
+		return found
+	}
+	found := false
+	ast.Inspect(fd.Body, func(n ast.Node) bool {
+		switch s := n.(type) {
+		case *ast.AssignStmt:
+			if len(s.Lhs) == 1 && len(s.Rhs) == 1 && isFitValid(s.Lhs[0]) && isConj(s.Rhs[0]) {
+				found = true
+			}
+		case *ast.IfStmt:
+			c := c05Strip(s.Cond, defs)
+			if isConj(c) && setsTrue(s.Body) {
+				found = true
+			}
+			if ue, ok := c.(*ast.UnaryExpr); ok && ue.Op == token.NOT && isConj(ue.X) {
+				if (s.Else != nil && setsTrue(s.Else)) || (!setsTrue(s.Body) && setsTrue(fd.Body)) {
+					found = true
+				}
+			}
+		}
+		return true
+	})
+	return found, rangeFd
+}
+
+// rangeCheckDesc: the two comparisons of the range check, normalised: operands by their last selector name after strip,
+// the timestamp on the left, the lower bound first, e.g. "Timestamp>=MinTs&&Timestamp<=MaxTs"
+func rangeCheckDesc(f *ast.File, rangeFd, getFd *ast.FuncDecl) string {
+	where := rangeFd
+	if where == nil {
+		where = getFd
+	}
+	if where == nil {
+		problem("fiterator: range check not found")
+		return "?"
+	}
+	defs := c05LocalDefs(where)
+	opnd := func(e ast.Expr) string {
+		switch x := c05Strip(e, defs).(type) {
+		case *ast.SelectorExpr:
+			return x.Sel.Name
+		case *ast.Ident:
+			return x.Name
+		}
+		return "?"
+	}
+	flip := map[token.Token]token.Token{token.LSS: token.GTR, token.GTR: token.LSS, token.LEQ: token.GEQ, token.GEQ: token.LEQ}
+	cmp := func(e ast.Expr) string {
+		be, ok := c05Strip(e, defs).(*ast.BinaryExpr)
+		if !ok {
+			return "?"
+		}
+		if _, ok := flip[be.Op]; !ok {
+			return "?"
+		}
+		l, r, op := opnd(be.X), opnd(be.Y), be.Op
+		if r == "Timestamp" {
+			l, r, op = r, l, flip[op]
+		}
+		return l + op.String() + r
+	}
+	desc := ""
+	c05InspectDeep(f, where, 1, map[*ast.FuncDecl]bool{}, func(n ast.Node) {
+		be, ok := n.(*ast.BinaryExpr)
+		if !ok || be.Op != token.LAND || desc != "" {
+			return
+		}
+		a, b := cmp(be.X), cmp(be.Y)
+		if a == "?" || b == "?" {
+			return
+		}
+		if strings.HasSuffix(a, "MaxTs") && strings.HasSuffix(b, "MinTs") {
+			a, b = b, a
+		}
+		desc = a + "&&" + b
+	})
+	if desc == "" {
+		problem("fiterator: range check (two comparisons joined by &&) not found")
+		return "?"
+	}
+	return desc
 }
